@@ -49,6 +49,8 @@ class C03(RailsProp):
     # one execution with an explicit fault list [[call_index, exc_type], ...]
     def run_faulted(self, sc, faults, tr, out):
         fault_at = {int(n): t for n, t in faults}
+        pin = {"faults": [[list(f) for f in faults]]} if faults else None
+        n_viol0 = len(out.violations)
         world, records = RR.run_conversations(sc, fault_at=fault_at, tr=tr)
         cc = cfgclass(sc)
         fired = world.faults_fired
@@ -118,6 +120,8 @@ class C03(RailsProp):
                     when = "after-fault" if faulted_turns else "before-fault"
                     out.violate("rails-inactive-%s" % when, "%s:%s:%s" % (cc, sitesig, _poison_kind(sc, rec, ev, v)),
                                 "faults at action calls %r; %s" % (faults, v.narrative))
+        for v in out.violations[n_viol0:]:
+            v.pin = pin
         return world, records, fired
 
     def execute(self, sc):
